@@ -1259,8 +1259,10 @@ int32 psPkcs12ParseMem(psPool_t *pool, psX509Cert_t **cert, psPubKey_t *privKey,
             psTraceCrypto("Algorithm password integrity parse failure\n");
             goto ERR_PARSE;
         }
-        if ((*p++ != ASN_OCTET_STRING) ||
-            getAsnLength(&p, (int32) (end - p), &tmplen) < 0)
+        if ((uint32) (end - p) < 1 || (*p++ != ASN_OCTET_STRING) ||
+            getAsnLength(&p, (int32) (end - p), &tmplen) < 0 ||
+            (uint32) (end - p) < tmplen ||
+            tmplen != SHA1_HASH_SIZE)
         {
             psTraceCrypto("Octet digest password integrity parse failure\n");
             rc = PS_PARSE_FAIL;
@@ -1268,8 +1270,9 @@ int32 psPkcs12ParseMem(psPool_t *pool, psX509Cert_t **cert, psPubKey_t *privKey,
         }
         Memcpy(digest, p, tmplen);
         p += tmplen;
-        if ((*p++ != ASN_OCTET_STRING) ||
-            getAsnLength(&p, (int32) (end - p), &tmplen) < 0)
+        if ((uint32) (end - p) < 1 || (*p++ != ASN_OCTET_STRING) ||
+            getAsnLength(&p, (int32) (end - p), &tmplen) < 0 ||
+            (uint32) (end - p) < tmplen)
         {
             psTraceCrypto("Octet macSalt password integrity parse failure\n");
             rc = PS_PARSE_FAIL;
